@@ -124,14 +124,14 @@ var kindName = map[opKind]string{
 
 type op struct {
 	k       opKind
-	a, s, v int    // address, slot, value index
+	a, s, v int      // address, slot, value index
 	n       uint64   // nonce / refund
 	amt     *big.Int // balance operations
 	code    int
 	del     bool
 	th      common.Hash
 	ti      int
-	j       int    // revert: index of the frame to revert to
+	j       int     // revert: index of the frame to revert to
 	stor    [NS]int // SetStorage: value index per slot, -1 = key absent from the map
 	// commit options
 	flush, fresh bool
